@@ -9,14 +9,18 @@ import hashlib
 import json
 import threading
 import time
+from fractions import Fraction
 
 import numpy as np
 import pandas as pd
+from sklearn.base import BaseEstimator
 
 import common
 import mkdata
 import pipeline as P
 import recest
+from c01 import rounded
+from common import a_rat, dec, req
 
 RULE = (
     "case = (PSM table, estimator kind, variant configuration: each of the six streaming constants drawn from "
@@ -24,7 +28,13 @@ RULE = (
     "text or Parquet with a random row-group size); read_pin dataset, brew scores/models and all assign_confidence "
     "result files of the variant are compared with the baseline run of the same table; distinct = distinct "
     "(table, estimator, configuration); non-trivial = at least one chunk constant smaller than the table or "
-    "workers > 1 or Parquet"
+    "workers > 1 or Parquet. Extension (GAPS-C05.md): scoring mode per-fold / ensemble=True / reset path "
+    "(pretrained model whose re-fit fails), 1 or 2 collections with or without prefixes, an additional confidence "
+    "run on tied scores in about a fifth of the cases (score column and per-spectrum score compared); "
+    "every configuration (baseline too) is also compared with the Lean models of Model/Cross.lean: ensemble and "
+    "reset scores against the mean / calibration of whole-table predictions of the returned models, the training "
+    "tables handed to the fold fits against rows[train_idx] per file, every result file (ids, order, q-values, "
+    "target/decoy split) against the chunked model and its chunk-free specification"
 )
 THR = 0.25
 DELAYED = [
@@ -35,6 +45,46 @@ DELAYED = [
     ("mokapot.parsers.pin", "drop_missing_values_and_fill_spectra_dataframe"),
     ("mokapot.confidence", "_save_sorted_metadata_chunks"),
 ]
+
+
+class FlipRefit(BaseEstimator):
+    """decision function = 16 * (informative feature) until the instance is fitted, all zeros afterwards.
+    A *trained* Model around it makes every fold's re-fit end in "Model performs worse after training."
+    (no PSM passes), which is the reset path of brew: the original model scores all collections through
+    `_predict_with_ensemble` and the result is calibrated per collection."""
+
+    def __init__(self, col=1):
+        self.col = col
+
+    def fit(self, X, y):
+        self.refit_ = True
+        return self
+
+    def decision_function(self, X):
+        X = np.asarray(X, dtype=float)
+        if getattr(self, "refit_", False):
+            return np.zeros(len(X))
+        return X[:, self.col] * 16.0
+
+
+@contextlib.contextmanager
+def record_parse(rec):
+    """records train_idx and the materialised training tables of every parse_in_chunks call made by brew"""
+    bm = P.mod("mokapot.brew")
+    old = bm.parse_in_chunks
+
+    def wrapped(psms, train_idx, chunk_size, max_workers):
+        idx = [[[int(i) for i in file_idx] for file_idx in fold] for fold in train_idx]
+        res = old(psms=psms, train_idx=train_idx, chunk_size=chunk_size, max_workers=max_workers)
+        rec.append(dict(train_idx=idx, chunk_size=int(chunk_size),
+                        tables=[[None if x != x else int(x) for x in t["rowid"].tolist()] for t in res]))
+        return res
+
+    bm.parse_in_chunks = wrapped
+    try:
+        yield
+    finally:
+        bm.parse_in_chunks = old
 
 
 @contextlib.contextmanager
@@ -71,7 +121,12 @@ def jitter(seed, on):
             setattr(mo, name, old)
 
 
-def gen_case(rng):
+MODES = ("perfold", "ensemble", "reset")
+
+
+def gen_case(rng, idx=None):
+    """idx (position of the case in the run) stratifies the new dimensions, so that every quick run holds an
+    ensemble, a reset and a two-collection case; all values still come from `rng`"""
     n_spec = rng.choice([80, 120, 160])
     case = dict(
         n_spectra=n_spec, max_per=rng.choice([1, 2, 3]), nfeat=rng.choice([2, 5, 17, 18, 22]),
@@ -81,6 +136,24 @@ def gen_case(rng):
         nan_col=rng.random() < 0.4, levels=[c for c in ("ModifiedPeptide", "Precursor") if rng.random() < 0.4],
         dedup=rng.random() < 0.7,
     )
+    mode = rng.choice(["perfold", "perfold", "perfold", "ensemble", "ensemble", "reset"])
+    ncoll = rng.choice([1, 1, 2])
+    if idx is not None:
+        mode = {1: "ensemble", 3: "reset"}.get(idx % 5, mode if idx % 5 == 4 else "perfold")
+        ncoll = {2: 2}.get(idx % 5, ncoll if idx % 5 >= 3 else 1)
+    case["mode"] = mode
+    case["ncoll"] = ncoll
+    case["prefixes"] = rng.random() < 0.6
+    # the additional run on tied scores (not for collections aggregated into one file: the projection compared
+    # there is defined per collection)
+    case["ties"] = rng.random() < 0.2 and (ncoll == 1 or case["prefixes"])
+    if mode == "ensemble":
+        # estimators whose fold models differ from one another (otherwise the mean over models says nothing)
+        case["est"] = rng.choice(["orderprobe", "orderprobe", "svm", "tagged", "forest"])
+    elif mode == "reset":
+        case["est"] = "flip"
+        if case["cap"] == 0.4:      # a very small training subset can leave the pretrained model without any
+            case["cap"] = 0.8       # accepted PSM (brew raises before the reset decision): keep the cases productive
     pick = lambda: rng.choice([1, 2, 3, 7, "n-1", "n", "n+1", 10 ** 7])  # noqa: E731
     case["variants"] = []
     for _ in range(rng.choice([2, 3])):
@@ -94,7 +167,7 @@ def gen_case(rng):
     return case
 
 
-def make_model(case):
+def make_model(case, ds=None):
     import mokapot
     from sklearn.ensemble import RandomForestClassifier
 
@@ -105,9 +178,19 @@ def make_model(case):
     if k == "tagproba":
         return mokapot.Model(recest.TagProba(run=recest.new_run(), tagged=False), scaler="as-is", train_fdr=THR, max_iter=2,
                              override=True, rng=case["seed"])
+    if k == "tagged":       # ensemble mode only: the tags 0..folds-1 depend on scheduling, their mean does not
+        return mokapot.Model(recest.TagProba(run=recest.new_run(), tagged=True), scaler="as-is", train_fdr=THR, max_iter=2,
+                             override=True, rng=case["seed"])
     if k == "orderprobe":   # output depends on the order of the training rows: any reordering shows in the scores
         return mokapot.Model(recest.TagProba(run=recest.new_run(), tagged=False, order=True), scaler="as-is",
                              train_fdr=THR, max_iter=2, override=True, rng=case["seed"])
+    if k == "flip":         # a trained model whose re-fit fails in every fold: reset path
+        feats = list(ds.feature_columns)
+        m = mokapot.Model(FlipRefit(col=feats.index("feat0")), scaler="as-is", train_fdr=THR, max_iter=2,
+                          override=True, rng=case["seed"])
+        m.features = feats
+        m.is_trained = True
+        return m
     if k == "svm":
         return mokapot.PercolatorModel(train_fdr=THR, max_iter=2, rng=case["seed"], override=True)
     return mokapot.Model(RandomForestClassifier(n_estimators=8, random_state=case["seed"], max_depth=4),
@@ -118,42 +201,102 @@ def csize(v, n):
     return {"n-1": max(1, n - 1), "n": n, "n+1": n + 1}.get(v, v)
 
 
-def run_config(case, df, d, cfg, tag):
-    """returns dict(dataset=..., scores=..., files={name: DataFrame})"""
+def conf_scores(case, df):
+    """the (integer-valued, pairwise distinct) score vector handed to assign_confidence"""
+    return df["feat0"].values.astype(float)
+
+
+def tied_scores(df):
+    """integer-valued scores with many ties (the row id in the low bits of feat0 is dropped)"""
+    return np.floor(df["feat0"].values.astype(float) / (4096.0 * 16.0))
+
+
+def full_lin(ds):
+    """the whole collection as the in-memory dataset that Model.predict takes (one chunk: the whole file)"""
+    bm = P.mod("mokapot.brew")
+    return bm._create_psms(ds, ds.read_data(columns=ds.columns), enforce_checks=False)
+
+
+def coll_prefixes(case):
+    if case.get("ncoll", 1) == 1:
+        return [None]
+    return ["a", "b"] if case.get("prefixes") else [None, None]
+
+
+def run_config(case, dfs, d, cfg, tag):
+    """returns dict(dataset=[...per collection], scores=..., files={name: DataFrame}, ...)"""
     import mokapot
 
-    n = len(df)
+    n = len(dfs[0])
     sizes = {k: csize(cfg[k], n) for k in ("confidence", "merge", "predict", "read_all", "drop_rows")}
     sizes["drop_cols"] = cfg["drop_cols"]
-    p = mkdata.write_table(df, d / f"{tag}.{cfg['fmt']}", row_group_size=cfg["rg"])
+    if len(dfs) == 1:
+        paths = [mkdata.write_table(dfs[0], d / f"{tag}.{cfg['fmt']}", row_group_size=cfg["rg"])]
+    else:
+        paths = [mkdata.write_table(x, d / f"{tag}_{k}.{cfg['fmt']}", row_group_size=cfg["rg"]) for k, x in enumerate(dfs)]
     out = {}
-    with P.chunk_sizes(**sizes), jitter(cfg["jseed"], cfg["jitter"]):
-        ds = mkdata.read_dataset(p, max_workers=cfg["workers"])
-        sd = ds.spectra_dataframe
-        out["dataset"] = dict(features=list(ds.feature_columns), spectrum=list(ds.spectrum_columns),
-                              metadata=list(ds.metadata_columns), levels=list(ds.level_columns),
-                              spectra_cols=list(sd.columns), spectra=sd.astype(float).values.tolist(),
-                              spectra_index=list(sd.index))
-        model = make_model(case)
-        cap = None if case.get("cap") is None else max(10, int(case["cap"] * n * (case["folds"] - 1) / case["folds"]))
-        _, models, scores, descs = mokapot.brew(ds, model, test_fdr=THR, folds=case["folds"],
-                                                max_workers=cfg["workers"], rng=case["seed"], subset_max_train=cap)
-        out["scores"] = np.asarray(scores[0], dtype=float).ravel()
+    mode = case.get("mode", "perfold")
+    rec = []
+    with P.chunk_sizes(**sizes), jitter(cfg["jseed"], cfg["jitter"]), record_parse(rec):
+        if len(paths) == 1:
+            dss = [mkdata.read_dataset(paths[0], max_workers=cfg["workers"])]
+        else:
+            dss = list(mokapot.read_pin(list(paths), max_workers=cfg["workers"]))
+        out["dataset"] = []
+        for ds in dss:
+            sd = ds.spectra_dataframe
+            out["dataset"].append(dict(features=list(ds.feature_columns), spectrum=list(ds.spectrum_columns),
+                                       metadata=list(ds.metadata_columns), levels=list(ds.level_columns),
+                                       spectra_cols=list(sd.columns), spectra=sd.astype(float).values.tolist(),
+                                       spectra_index=list(sd.index)))
+        model = make_model(case, dss[0])
+        ntot = sum(len(x) for x in dfs)
+        cap = None if case.get("cap") is None else max(10, int(case["cap"] * ntot * (case["folds"] - 1) / case["folds"]))
+        _, models, scores, descs = mokapot.brew(dss if len(dss) > 1 else dss[0], model, test_fdr=THR, folds=case["folds"],
+                                                max_workers=cfg["workers"], rng=case["seed"], subset_max_train=cap,
+                                                ensemble=(mode == "ensemble"))
+        out["scores_per"] = [np.asarray(s_, dtype=float).ravel() for s_ in scores]
+        out["scores"] = np.concatenate(out["scores_per"])
         out["descs"] = [bool(x) for x in descs]
+        out["trained"] = all(m.is_trained for m in models)
+        out["train"] = rec
         coefs = []
         for m in models:
             est = getattr(m.estimator, "best_estimator_", m.estimator)
             if hasattr(est, "coef_"):
                 coefs.append(np.asarray(est.coef_, dtype=float).ravel().tolist() + np.ravel(est.intercept_).tolist())
         out["coefs"] = coefs
+    # whole-table predictions of the returned models (outside the chunk-size context: one chunk = the file)
+    if mode == "ensemble" and out["trained"]:
+        lins = [full_lin(ds) for ds in dss]
+        out["raw"] = [[np.asarray(m.predict(lin), dtype=float).ravel() for m in models] for lin in lins]
+    if mode == "reset":
+        lins = [full_lin(ds) for ds in dss]
+        out["reset_taken"] = all(getattr(m.estimator, "refit_", False) for m in models) \
+            and not getattr(model.estimator, "refit_", False)
+        out["raw0"] = [np.asarray(model.predict(lin), dtype=float).ravel() for lin in lins]
+        out["targets"] = [np.asarray(lin.targets, dtype=bool) for lin in lins]
+    with P.chunk_sizes(**sizes), jitter(cfg["jseed"], cfg["jitter"]):
         # confidence on exact (integer-valued) scores, so that every comparison below is exact
-        ds2 = mkdata.read_dataset(p, max_workers=cfg["workers"])
+        if len(paths) == 1:
+            ds2 = [mkdata.read_dataset(paths[0], max_workers=cfg["workers"])]
+        else:
+            ds2 = dss       # several collections: the datasets brew has used are handed on (as the CLI does)
         cdir = d / f"conf-{tag}"
         cdir.mkdir()
         with P.pep_kernel(stub=True):
-            P.run_assign_confidence([ds2], [df["feat0"].values.astype(float)], cdir, prefixes=[None], decoys=True,
-                                    deduplication=case["dedup"], max_workers=cfg["workers"])
+            P.run_assign_confidence(ds2, [conf_scores(case, x) for x in dfs], cdir, prefixes=coll_prefixes(case),
+                                    decoys=True, deduplication=case["dedup"], max_workers=cfg["workers"])
         out["files"] = {f.name: P.read_result(f) for f in sorted(cdir.iterdir())}
+        if case.get("ties"):
+            # a second confidence run of the same configuration on tied scores (theorem
+            # C05_psm_scores_chunk_invariant_ties); the tie-free run above keeps every exact comparison
+            cdir2 = d / f"conf-tied-{tag}"
+            cdir2.mkdir()
+            with P.pep_kernel(stub=True):
+                P.run_assign_confidence(ds2, [tied_scores(x) for x in dfs], cdir2, prefixes=coll_prefixes(case),
+                                        decoys=True, deduplication=case["dedup"], max_workers=cfg["workers"])
+            out["files_tied"] = {f.name: P.read_result(f) for f in sorted(cdir2.iterdir())}
     return out
 
 
@@ -161,14 +304,41 @@ BASE = dict(confidence=10 ** 7, merge=10 ** 7, predict=10 ** 7, read_all=10 ** 7
             workers=1, fmt="pin", rg=None, jitter=False, jseed=0)
 
 
-def compare(base, var):
+def tie_projection(case, dfs, run):
+    """what remains independent of the chunk size when the confidence scores are tied (theorem
+    C05_psm_scores_chunk_invariant_ties): per PSM-level file pair the score column and, with de-duplication, the
+    score reported for every spectrum (without: the set of PSMs).  None for collections written into one file."""
+    out = []
+    for k, (df, pref) in enumerate(zip(dfs, coll_prefixes(case))):
+        if len(dfs) > 1 and pref is None:
+            return None
+        pre = f"{pref}." if pref else ""
+        t, dcy = run["files_tied"].get(f"{pre}targets.psms"), run["files_tied"].get(f"{pre}decoys.psms")
+        if t is None or dcy is None:
+            return None
+        spec_cols = run["dataset"][k]["spectrum"]
+        spec_of = dict(zip(df["SpecId"], (tuple(x) for x in df[spec_cols].values.tolist())))
+        both = pd.concat([t, dcy])
+        col = sorted(both["score"].astype(float).tolist(), reverse=True)
+        if case["dedup"]:
+            per = sorted((spec_of.get(i), float(s_)) for i, s_ in zip(both["PSMId"], both["score"]))
+        else:
+            per = sorted((i, float(s_)) for i, s_ in zip(both["PSMId"], both["score"]))
+        out.append((col, per))
+    return out
+
+
+def compare(base, var, case=None, dfs=None):
     """first difference between two runs, or None"""
-    for k in ("features", "spectrum", "metadata", "levels", "spectra_cols", "spectra", "spectra_index"):
-        if base["dataset"][k] != var["dataset"][k]:
-            return f"read_pin: dataset field {k} differs"
+    if len(base["dataset"]) != len(var["dataset"]):
+        return "read_pin: number of collections differs"
+    for kc, (bd, vd) in enumerate(zip(base["dataset"], var["dataset"])):
+        for k in ("features", "spectrum", "metadata", "levels", "spectra_cols", "spectra", "spectra_index"):
+            if bd[k] != vd[k]:
+                return f"read_pin: dataset field {k} differs" + (f" (collection {kc})" if kc else "")
     if base["descs"] != var["descs"]:
         return "brew: descs differ"
-    if base["scores"].shape != var["scores"].shape:
+    if base["scores"].shape != var["scores"].shape or [x.shape for x in base["scores_per"]] != [x.shape for x in var["scores_per"]]:
         return "brew: number of scores differs"
     if not np.allclose(base["scores"], var["scores"], rtol=1e-9, atol=1e-9):
         i = int(np.argmax(np.abs(base["scores"] - var["scores"])))
@@ -176,6 +346,8 @@ def compare(base, var):
     if len(base["coefs"]) != len(var["coefs"]) or any(
             not np.allclose(a, b, rtol=1e-9, atol=1e-12) for a, b in zip(base["coefs"], var["coefs"])):
         return "brew: model coefficients differ"
+    if [(r["train_idx"], r["tables"]) for r in base["train"]] != [(r["train_idx"], r["tables"]) for r in var["train"]]:
+        return "brew: training tables handed to the fold fits differ"
     if sorted(base["files"]) != sorted(var["files"]):
         return f"assign_confidence: set of files differs {sorted(base['files'])} vs {sorted(var['files'])}"
     for name, fb in base["files"].items():
@@ -189,7 +361,180 @@ def compare(base, var):
             same = np.array_equal(a, b) if a.dtype.kind not in "fc" else np.allclose(a, b, rtol=1e-12, atol=0, equal_nan=True)
             if not same:
                 return f"assign_confidence: {name} column {c} differs"
+    if case is not None and case.get("ties"):
+        # tied scores: which of several equally scored PSMs survives is C03's tie rule; compare what the
+        # chunk size may not influence
+        if sorted(base["files_tied"]) != sorted(var["files_tied"]):
+            return "assign_confidence: set of files differs (tied scores)"
+        pb, pv = tie_projection(case, dfs, base), tie_projection(case, dfs, var)
+        if pb is not None and pv is not None and pb != pv:
+            return "assign_confidence: PSM-level score column / per-spectrum score differs (tied scores)"
     return None
+
+
+# ------------------------------------------------------------------------------------------------
+# comparisons with the Lean models of Model/Cross.lean (every configuration, the baseline included)
+# ------------------------------------------------------------------------------------------------
+def _floats(tokens):
+    return np.array([float(a_rat(t)) for t in tokens], dtype=float)
+
+
+def check_ensemble(case, cfg, out, n0):
+    """-> (kind, op/signature, detail) or None"""
+    if case.get("mode") != "ensemble" or "raw" not in out:
+        return None
+    c = csize(cfg["predict"], n0)
+    reqs = []
+    for raw in out["raw"]:
+        tbl = [[Fraction(float(x)) for x in r] for r in raw]
+        reqs += [req("xensemble", c, tbl), req("xensemblespec", tbl)]
+    resp = common.driver_batch(reqs)
+    for k, raw in enumerate(out["raw"]):
+        impl = out["scores_per"][k]
+        expected = np.mean(np.vstack(raw), axis=0)
+        if impl.shape != expected.shape or not np.allclose(impl, expected, rtol=1e-9, atol=1e-9):
+            i = int(np.argmax(np.abs(impl - expected))) if impl.shape == expected.shape else -1
+            return ("spec", "ensemble-scores", f"collection {k}: score of row {i} is not the mean of the fold models' outputs")
+        spec = _floats(dec(resp[2 * k + 1]))
+        if spec.shape != impl.shape or not np.allclose(impl, spec, rtol=1e-9, atol=1e-9):
+            return ("spec", "ensemble-scores", f"collection {k}: scores differ from the Lean specification ensembleSpec")
+        model = _floats(dec(resp[2 * k]))
+        if model.shape != impl.shape or not np.allclose(impl, model, rtol=1e-9, atol=1e-9):
+            return ("corr", "xensemble", f"collection {k}: chunked model differs from the implementation")
+    return None
+
+
+def check_reset(case, cfg, out, n0):
+    if case.get("mode") != "reset":
+        return None
+    import mokapot.dataset as D
+
+    if not out.get("reset_taken"):
+        return ("skip", "reset-not-taken", None)
+    c = csize(cfg["predict"], n0)
+    reqs = [req("xreset", c, Fraction(1, 4), [Fraction(float(x)) for x in raw], [bool(t) for t in tg])
+            for raw, tg in zip(out["raw0"], out["targets"])]
+    resp = common.driver_batch(reqs)
+    for k, (raw, tg) in enumerate(zip(out["raw0"], out["targets"])):
+        impl = out["scores_per"][k]
+        expected = np.asarray(D.calibrate_scores(raw.copy(), tg.copy(), THR), dtype=float)
+        if impl.shape != expected.shape or not np.allclose(impl, expected, rtol=1e-9, atol=1e-9):
+            return ("spec", "reset-scores", f"collection {k}: scores are not the calibrated outputs of the original model")
+        r = resp[k].strip()
+        if r.startswith("reject"):
+            return ("corr", "xreset", f"collection {k}: model rejects ({r}) where the implementation returned scores")
+        toks = dec(r)
+        if any(t in ("pinf", "ninf", "nan") for t in toks):
+            return ("corr", "xreset", f"collection {k}: model returns a non-finite score")
+        model = _floats(toks)
+        if model.shape != impl.shape or not np.allclose(impl, model, rtol=1e-9, atol=1e-9):
+            return ("corr", "xreset", f"collection {k}: chunked model differs from the implementation")
+    return None
+
+
+def check_train_tables(case, cfg, out, dfs, n0):
+    """the tables handed to the fold fits = rows[train_idx] of every file, file after file"""
+    rowids = [x["rowid"].tolist() for x in dfs]
+    c = csize(cfg["read_all"], n0)
+    for call in out["train"]:
+        reqs, folds_sent = [], []
+        for k, (idx, table) in enumerate(zip(call["train_idx"], call["tables"])):
+            expected = [rowids[f][i] if 0 <= i < len(rowids[f]) else None for f, file_idx in enumerate(idx) for i in file_idx]
+            if table != expected:
+                return ("spec", "train-table", f"fold {k}: the training table is not rows[train_idx] of every file in file order")
+            if k in (0, len(call["train_idx"]) - 1):
+                pieces = []
+                for f, file_idx in enumerate(idx):
+                    want = set(file_idx)
+                    nrow = len(rowids[f])
+                    pieces.append([[[i, rowids[f][i]] for i in range(a, min(a + c, nrow)) if i in want]
+                                   for a in range(0, nrow, c)])
+                reqs.append(req("xmaterialise", pieces, idx))
+                folds_sent.append(k)
+        if reqs:
+            for k, r in zip(folds_sent, common.driver_batch(reqs)):
+                toks = dec(r)
+                model = [None if t == "none" else int(t[0]) for t in toks] if isinstance(toks, list) else None
+                if model != call["tables"][k]:
+                    return ("corr", "xmaterialise", f"fold {k}: model of the materialised training rows differs")
+    return None
+
+
+def check_files(case, cfg, out, dfs, n0):
+    """every result file against the chunked model (xfiles) and its chunk-free specification (xfilesspec)"""
+    prefs = coll_prefixes(case)
+    if len(dfs) > 1 and prefs[0] is None:
+        return ("skip", "xfiles-skipped-aggregated", None)
+    c = csize(cfg["confidence"], n0)
+    reqs, metas = [], []
+    for k, (df, pref) in enumerate(zip(dfs, prefs)):
+        info = out["dataset"][k]
+        score = conf_scores(case, df)
+        rows = P.table_rows(df, info["spectrum"], info["levels"], score)
+        sc = [int(x) for x in score]
+        reqs += [req("xfiles", c, case["dedup"], len(info["levels"]), rows, sc),
+                 # the specification is evaluated with one chunk holding the whole table: no chunk size in it
+                 req("xfilesspec", 10 ** 7, case["dedup"], len(info["levels"]), rows, sc)]
+        metas.append((k, df, pref, info))
+    resp = common.driver_batch(reqs)
+    for (k, df, pref, info), rm, rs in zip(metas, resp[0::2], resp[1::2]):
+        pre = f"{pref}." if pref else ""
+        byid = {sid: i for i, sid in enumerate(df["SpecId"])}
+        names = ["psms"] + [c_.lower() + "s" for c_ in info["levels"]]
+        impl = []
+        for ln in names:
+            per = []
+            for which in ("targets", "decoys"):
+                f = out["files"].get(f"{pre}{which}.{ln}")
+                if f is None:
+                    return ("spec", "result-files", f"collection {k}: file {pre}{which}.{ln} is missing")
+                per.append([(byid.get(i, -1), float(q)) for i, q in zip(f["PSMId"], f["q-value"])])
+            impl.append(per)
+
+        def parse(r):
+            lv = dec(r)
+            return [[[(int(x[0]), rounded(a_rat(x[1]))) for x in part] for part in level] for level in lv]
+
+        spec, model = parse(rs), parse(rm)
+        if impl != spec:
+            lvl = next((names[i] for i in range(len(names)) if i >= len(spec) or impl[i] != spec[i]), "?")
+            return ("spec", "result-files", f"collection {k}: level {lvl}: rows / order / q-values / target-decoy split "
+                                            "differ from the chunk-free specification")
+        if impl != model:
+            return ("corr", "xfiles", f"collection {k}: chunked model differs from the implementation")
+    return None
+
+
+def model_checks(chk, case, cfg, out, dfs):
+    """runs all comparisons with the Lean models on one configuration; returns True when a violation or a
+    broken correspondence was recorded"""
+    n0 = len(dfs[0])
+    for fn in (lambda: check_ensemble(case, cfg, out, n0), lambda: check_reset(case, cfg, out, n0),
+               lambda: check_train_tables(case, cfg, out, dfs, n0), lambda: check_files(case, cfg, out, dfs, n0)):
+        res = fn()
+        if res is None:
+            continue
+        kind, name, detail = res
+        if kind == "skip":
+            chk.count("model-check", name)
+            continue
+        info = dict(case={k: v for k, v in case.items() if k != "variants"}, variant=cfg, clause=detail)
+        if kind == "spec":
+            chk.spec_violation("config-dependence:" + name, info)
+        else:
+            chk.corr_break(name, dict(case=info["case"], variant=cfg, impl=detail, model=name))
+        return True
+    return False
+
+
+def split_table(df, ncoll):
+    """1 or 2 collections: the table is cut at a spectrum boundary near the middle"""
+    if ncoll == 1:
+        return [df]
+    cut = len(df) // 2
+    while 0 < cut < len(df) and df["ScanNr"].iloc[cut] == df["ScanNr"].iloc[cut - 1]:
+        cut += 1
+    return [df.iloc[:cut].reset_index(drop=True), df.iloc[cut:].reset_index(drop=True)]
 
 
 def run_case(chk, case):
@@ -199,42 +544,61 @@ def run_case(chk, case):
     df = mkdata.make_psm_table(r, n_spectra=case["n_spectra"], max_per_spectrum=case["max_per"], n_feat=case["nfeat"],
                                label_enc=r.choice(["pm1", "01"]), optional=("ExpMass",), signal=4.0,
                                level_cols=tuple(case["levels"]))
+    dfs = split_table(df, case.get("ncoll", 1))
     if case["nan_col"]:
         col = f"feat{case['nfeat'] - 1}"
-        df[col] = df[col].astype(float)
-        df.loc[r.randrange(len(df)), col] = np.nan
+        for x in dfs:     # the same column of every collection (brew requires equal feature sets)
+            x[col] = x[col].astype(float)
+            x.loc[r.randrange(len(x)), col] = np.nan
+    ntot = sum(len(x) for x in dfs)
     with P.workdir() as d:
         try:
-            base = run_config(case, df, d, BASE, "base")
+            base = run_config(case, dfs, d, BASE, "base")
         except Exception as e:
             chk.reject("baseline-failed:" + type(e).__name__ + ":" + str(e)[:50])
             return
+        chk.count("mode", case.get("mode", "perfold")); chk.count("collections", len(dfs))
+        chk.count("ties", bool(case.get("ties")))
+        if len(dfs) > 1:
+            chk.count("prefixes", bool(case.get("prefixes")))
+        if case.get("mode") == "reset":
+            chk.count("reset-taken", bool(base.get("reset_taken")))
+        if case.get("mode") == "ensemble":
+            chk.count("ensemble-models-trained", bool(base.get("trained")))
+        if model_checks(chk, case, BASE, base, dfs):
+            return
         for vi, cfg in enumerate(case["variants"]):
             nontriv = cfg["workers"] > 1 or cfg["fmt"] == "parquet" or any(
-                isinstance(cfg[k], str) or cfg[k] < len(df) for k in ("confidence", "merge", "predict", "read_all", "drop_rows"))
-            key = (case["data_seed"], case["est"], json.dumps(cfg, sort_keys=True)) if nontriv else None
+                isinstance(cfg[k], str) or cfg[k] < ntot for k in ("confidence", "merge", "predict", "read_all", "drop_rows"))
+            key = (case["data_seed"], case["est"], case.get("mode"), len(dfs), json.dumps(cfg, sort_keys=True)) if nontriv else None
+            var = None
             try:
-                var = run_config(case, df, d, cfg, f"v{vi}")
-                diff = compare(base, var)
+                var = run_config(case, dfs, d, cfg, f"v{vi}")
+                diff = compare(base, var, case, dfs)
             except Exception as e:
                 import traceback
                 diff = f"variant run failed although the baseline succeeded: {type(e).__name__}: {e}"[:300]
                 tb = traceback.format_exc()[-600:]
-            chk.case(None, key, sample=dict(table_rows=len(df), est=case["est"], variant={k: str(v) for k, v in cfg.items()}))
+            chk.case(None, key, sample=dict(table_rows=ntot, est=case["est"], mode=case.get("mode"), collections=len(dfs),
+                                            variant={k: str(v) for k, v in cfg.items()}))
             chk.count("est", case["est"]); chk.count("cap", str(case.get("cap"))); chk.count("folds", case["folds"]); chk.count("fmt", cfg["fmt"]); chk.count("workers", cfg["workers"])
             for k in ("confidence", "merge", "predict", "read_all", "drop_rows", "drop_cols"):
                 chk.count(k, str(cfg[k]))
             chk.count("jitter", cfg["jitter"])
+            chk.count("mode-x-predict", f"{case.get('mode', 'perfold')}/{cfg['predict']}")
+            chk.count("collections-x-read_all", f"{len(dfs)}/{cfg['read_all']}")
             if diff:
                 sig = "config-dependence:" + diff.split(":")[0]
                 chk.spec_violation(sig, dict(case={k: v for k, v in case.items() if k != "variants"}, variant=cfg,
                                              clause=diff))
                 return
+            if model_checks(chk, case, cfg, var, dfs):
+                return
 
 
 def search(chk):
-    for _ in range(10 * chk.budget_mult):
-        run_case(chk, gen_case(chk.rng))
+    for i in range(10 * chk.budget_mult):
+        run_case(chk, gen_case(chk.rng, i))
         if chk.spec_violations:
             return
 
@@ -244,18 +608,29 @@ def main(chk, args):
     if not build.driver_ok:
         chk.finish(build, RULE)
     n = chk.scale(5 if chk.tier == "quick" else 60)
-    for _ in range(n):
-        run_case(chk, gen_case(chk.rng))
-    lc = common.leanchecker("C05") if chk.tier == "thorough" else None
+    for i in range(n):
+        run_case(chk, gen_case(chk.rng, i))
+    lc = None
+    if chk.tier == "thorough":      # both property modules (Props/C05.lean and the extension Props/C05Cross.lean)
+        lcs = [common.leanchecker("C05"), common.leanchecker("C05Cross")]
+        lc = (all(x[0] for x in lcs), "".join(x[1] for x in lcs)[-2000:])
     chk.assumptions += [
-        "PARTIAL: the theorems carry the chunk/worker/format-independence logic of the models of C02, C03, C13, C14; "
+        "PARTIAL: the theorems carry the chunk/worker/format-independence logic of the models of C02, C03, C13, C14 "
+        "and of Model/Cross.lean (ensemble / reset scoring, several collections, the score-slice zip, level batches "
+        "and the chunked result writer of assign_confidence); "
         "real preemption inside numpy/sklearn/pyarrow, BLAS summation order and per-chunk CSV type inference are "
         "covered only by these differential runs (scores compared with rtol 1e-9, everything else exactly)",
         "thread timing is perturbed by seeded sleeps around the callables given to joblib.delayed",
+        "Model.predict is row-wise (the score of a row does not depend on the other rows of the chunk): hypothesis of "
+        "the ensemble / reset theorems, exercised by comparing chunked runs with whole-table predictions",
+        "the training tables are observed by wrapping mokapot.brew.parse_in_chunks (arguments and return value)",
+        "reset path: the expected scores are mokapot.dataset.calibrate_scores (C11's subject) applied to whole-table "
+        "predictions of the original model; the Lean side uses the calibrate model of C11",
     ]
     chk.extra["differential_runs"] = chk.evaluations
     chk.finish(build, RULE, search=search, lc=lc,
-               trusted_extra=["theorems of C02, C03, C13, C14 (imported)", "joblib threading backend, GIL"])
+               trusted_extra=["theorems of C02, C03, C13, C14 (imported)", "joblib threading backend, GIL",
+                              "joblib.Parallel returns results in submission order"])
 
 
 def replay(chk, path):
@@ -265,7 +640,7 @@ def replay(chk, path):
         print(json.dumps(info, indent=1)[:3000])
         return 0
     common.build_and_audit("C05")
-    case["variants"] = [info["variant"]]
+    case["variants"] = [info["variant"]] if info.get("variant") and info["variant"] != BASE else []
     run_case(chk, case)
     for sig, i in chk.spec_violations:
         print("REPRODUCED", sig, i.get("clause"))
